@@ -300,3 +300,12 @@ claim(
     "abstract interpretation of the custom-VJP closures with symbolic step counts (loop summary, recorded vjp operands, slot tables); sibling agreement of call-site tables on the syntax tree",
     "DESIGN.md §5 C04",
 )
+
+claim(
+    "C03",
+    "other",
+    "Decides the record / restore plumbing the exact reverse reconstruction rests on (exactness of the interior reverse update is C02's, the inner-face grading C12's): collect_interfaces -> Recorder.compress (no modules, the lossless case) -> Recorder.decompress -> add_interfaces, interpreted end to end on symbolic fields with absorbing layers on every axis and side and buffers of arbitrary prior content, restores at time index t exactly the E and H collected at index t on exactly the slab cells adjacent to the interior (one overwrite per buffer, never an accumulation; nothing else touched); interface_slice / interface_slice_tuple / interface_grid_shape agree with that oracle and with the shapes _init_arrays declares to the recorder; `forward` records after both updates with the pre-increment index and returns index + 1, `backward` decrements first, restores at that index before the reverse updates (H then E), resets every boundary's slab afterwards and hands the restored H to the detectors; PerfectlyMatchedLayer.apply_field_reset zeroes exactly its slab in every field handed in; full_backward steps from the current index down to start_time_step (exclusive) with the caller's flags; reverse updates evaluate every source at the forward call's time.",
+    TB + "; time-indexed buffer model; indicator algebra of .at[].set; counting-loop summary; C02 and C12 for the parts not decided here",
+    "abstract interpretation of the recorder pipeline over an indicator-algebra array domain and a write-log buffer domain; call-order extraction from the real step functions with stubbed parts; counting-loop summary; sibling call-site tables",
+    "DESIGN.md §5 C03",
+)
